@@ -55,11 +55,21 @@ class ClaimsRegistry:
 
 class JWTClaimsRegistry(ClaimsRegistry):
     def __init__(self, now: int | None = None, leeway: int = 0, **kwargs: ClaimsOption):
-        if now is None:
-            now = int(time.time())
-        self.now = now
+        self._now = now
         self.leeway = leeway
         super().__init__(**kwargs)
+
+    @property
+    def now(self) -> int:
+        # without an explicit ``now`` the claims are validated against the time
+        # of the validation, not the time this registry was created
+        if self._now is None:
+            return int(time.time())
+        return self._now
+
+    @now.setter
+    def now(self, value: int | None) -> None:
+        self._now = value
 
     def validate_aud(self, value: str | list[str]) -> None:
         """The "aud" (audience) claim identifies the recipients that the JWT is
